@@ -2,19 +2,19 @@
    Only statements closed by [exact]; the lemmas live in Proofs/Reference.v.
    The regular expressions are Generated/Regexes.v (re-translated from
    registry/reference.go on every run). *)
-From Oras Require Import Base.Prelude Base.Regex Generated.GC20 Model.Reference Model.RefOps Proofs.Reference Proofs.RefOps.
+From Oras Require Import Base.Prelude Base.Regex Generated.GC20 Model.Reference Model.RefOps Proofs.Reference Proofs.RefOps Proofs.RefURL Proofs.RefGrammar.
 
 (* ParseReference accepts exactly the grammar (any registry predicate). *)
 Theorem C20_parse_iff_grammar :
-  forall (valid_registry : str -> bool) s r,
-    parse valid_registry s = Some r <-> RefGrammar valid_registry s r.
+  forall (avail valid_registry : str -> bool) s r,
+    parse avail valid_registry s = Some r <-> RefGrammar avail valid_registry s r.
 Proof. exact parse_iff_grammar. Qed.
 Print Assumptions C20_parse_iff_grammar.
 
 (* format then parse gives the same reference *)
 Theorem C20_roundtrip :
-  forall (valid_registry : str -> bool) s r,
-    parse valid_registry s = Some r -> parse valid_registry (format r) = Some r.
+  forall (avail valid_registry : str -> bool) s r,
+    parse avail valid_registry s = Some r -> parse avail valid_registry (format avail r) = Some r.
 Proof. exact parse_roundtrip. Qed.
 Print Assumptions C20_roundtrip.
 
@@ -26,58 +26,168 @@ Theorem C20_tag_grammar :
 Proof. exact tag_grammar. Qed.
 Print Assumptions C20_tag_grammar.
 
-(* Repository.ParseReference: the five accepted forms give the same reference *)
+(* the repository regular expression is exactly the documented repository-name rule (inductive
+   grammar RepoName of Proofs/RefGrammar.v: components of [a-z0-9]+ runs joined by '.', '_', '__'
+   or dashes, components joined by '/'), and the digest check is exactly: a table algorithm that
+   is linked, ':' and lower-case hex of the algorithm's length *)
+Theorem C20_repository_grammar :
+  forall s, valid_repository s = true <-> RepoName s.
+Proof. exact repository_grammar. Qed.
+Print Assumptions C20_repository_grammar.
+
+Theorem C20_digest_grammar :
+  forall (avail : str -> bool) s,
+    valid_digest avail s = true <->
+    exists alg n enc, In (alg, n) alg_table /\ avail alg = true /\ s = alg ++ [c_colon] ++ enc /\
+                      length enc = n /\ Forall (fun c => hexlower c = true) enc.
+Proof. exact digest_grammar. Qed.
+Print Assumptions C20_digest_grammar.
+
+Example C20_repository_grammar_examples :
+  RepoName (b "a__b/c--d.e") /\ ~ RepoName (b "a___b") /\ ~ RepoName (b "a-_b") /\ ~ RepoName (b "a//b") /\ ~ RepoName (b "Org/app").
+Proof. exact repository_grammar_examples. Qed.
+
+(* a reference whose digest algorithm is not linked is not a digest reference at all: with
+   only sha256 linked a sha512 reference is rejected, with everything linked it is accepted *)
+Example C20_digest_linking :
+  let d := b "sha512:" ++ repeat 97 128 in
+  valid_digest (fun a => str_eqb a (b "sha256")) d = false /\ valid_digest (fun _ => true) d = true /\
+  parse (fun a => str_eqb a (b "sha256")) (fun _ => true) (b "localhost/a@" ++ d) = None.
+Proof. vm_compute. repeat split. Qed.
+
+(* Repository.ParseReference: the six accepted forms give the same reference: tag, B:tag, digest,
+   B@digest, <dropped>@digest (the dropped part is anything without '/' and '@') and
+   B:<dropped>@digest (anything without '@') *)
 Theorem C20_repo_forms_agree :
-  forall (valid_registry : str -> bool) breg brepo,
+  forall (avail valid_registry : str -> bool) breg brepo,
     ok_registry valid_registry breg -> valid_repository brepo = true ->
     (forall t, valid_tag t = true ->
-       repo_parse valid_registry breg brepo t = Some (mkRef breg brepo t) /\
-       repo_parse valid_registry breg brepo (breg ++ [c_slash] ++ brepo ++ [c_colon] ++ t)
+       repo_parse avail valid_registry breg brepo t = Some (mkRef breg brepo t) /\
+       repo_parse avail valid_registry breg brepo (breg ++ [c_slash] ++ brepo ++ [c_colon] ++ t)
          = Some (mkRef breg brepo t)) /\
-    (forall d, valid_digest d = true ->
-       repo_parse valid_registry breg brepo d = Some (mkRef breg brepo d) /\
-       repo_parse valid_registry breg brepo (breg ++ [c_slash] ++ brepo ++ [c_at] ++ d)
+    (forall d, valid_digest avail d = true ->
+       repo_parse avail valid_registry breg brepo d = Some (mkRef breg brepo d) /\
+       repo_parse avail valid_registry breg brepo (breg ++ [c_slash] ++ brepo ++ [c_at] ++ d)
          = Some (mkRef breg brepo d) /\
-       forall junk, contains c_slash junk = false -> contains c_at junk = false ->
-         repo_parse valid_registry breg brepo (junk ++ [c_at] ++ d) = Some (mkRef breg brepo d)).
-Proof.
-  intros vr breg brepo Hr Hp. split.
-  - intros t Ht. split; [exact (repo_parse_tag vr breg brepo t Ht)
-                        | exact (repo_parse_full_tag vr breg brepo Hr Hp t Ht)].
-  - intros d Hd. split; [exact (repo_parse_digest vr breg brepo d Hd)|].
-    split; [exact (repo_parse_full_digest vr breg brepo Hr Hp d Hd)|].
-    intros junk Hs Ha. exact (repo_parse_tag_at_digest vr breg brepo junk d Hs Ha Hd).
-Qed.
+       (forall junk, contains c_slash junk = false -> contains c_at junk = false ->
+         repo_parse avail valid_registry breg brepo (junk ++ [c_at] ++ d) = Some (mkRef breg brepo d)) /\
+       (forall junk, contains c_at junk = false ->
+         repo_parse avail valid_registry breg brepo (breg ++ [c_slash] ++ brepo ++ [c_colon] ++ junk ++ [c_at] ++ d)
+         = Some (mkRef breg brepo d))).
+Proof. exact repo_forms_agree. Qed.
 Print Assumptions C20_repo_forms_agree.
 
 (* other registries / repositories and empty references are rejected; whatever is
    accepted lies in the base repository and has a valid non-empty reference *)
 Theorem C20_repo_rejects_foreign :
-  forall (valid_registry : str -> bool) breg brepo s r,
-    parse valid_registry s = Some r ->
+  forall (avail valid_registry : str -> bool) breg brepo s r,
+    parse avail valid_registry s = Some r ->
     (r_registry r <> breg \/ r_repository r <> brepo) ->
-    repo_parse valid_registry breg brepo s = None.
+    repo_parse avail valid_registry breg brepo s = None.
 Proof. exact repo_parse_other_rejected. Qed.
 Print Assumptions C20_repo_rejects_foreign.
 
+(* "rejects other registries or repositories", full strength: a string with a path in it (a '/')
+   is accepted ONLY if it is a valid fully qualified reference of the base repository itself, i.e.
+   <base registry>/<base repository> followed by ':' or '@'.  Foreign references are rejected
+   whether or not they are themselves well formed (a malformed path in front of a valid digest
+   used to be re-targeted to the base: C20_repo_rejects_other_paths_prefix_refuted). *)
+Theorem C20_repo_rejects_other_paths :
+  forall (avail valid_registry : str -> bool) breg brepo s r,
+    repo_parse avail valid_registry breg brepo s = Some r -> contains c_slash s = true ->
+    (parse avail valid_registry s = Some r /\ r_registry r = breg /\ r_repository r = brepo) /\
+    exists c t, s = breg ++ [c_slash] ++ brepo ++ c :: t /\ (c = c_colon \/ c = c_at).
+Proof. exact repo_rejects_other_paths. Qed.
+Print Assumptions C20_repo_rejects_other_paths.
+
+(* the code before the fix (model repo_parse_prefix) violated it *)
+Theorem C20_repo_rejects_other_paths_prefix_refuted :
+  exists avail vr breg brepo s r,
+    ok_registry vr breg /\ valid_repository brepo = true /\
+    repo_parse_prefix avail vr breg brepo s = Some r /\ contains c_slash s = true /\ parse avail vr s = None.
+Proof. exact repo_parse_prefix_retargets. Qed.
+Print Assumptions C20_repo_rejects_other_paths_prefix_refuted.
+
 Theorem C20_repo_result_in_base :
-  forall (valid_registry : str -> bool) breg brepo s r,
-    repo_parse valid_registry breg brepo s = Some r ->
+  forall (avail valid_registry : str -> bool) breg brepo s r,
+    repo_parse avail valid_registry breg brepo s = Some r ->
     r_registry r = breg /\ r_repository r = brepo /\ r_reference r <> [] /\
-    (valid_tag (r_reference r) = true \/ valid_digest (r_reference r) = true).
+    (valid_tag (r_reference r) = true \/ valid_digest avail (r_reference r) = true).
 Proof. exact repo_parse_result_in_base. Qed.
 Print Assumptions C20_repo_result_in_base.
 
 (* URLs: last path segment is literally the reference; no structural characters *)
 Theorem C20_url_slot :
-  forall (valid_registry : str -> bool) plain r,
-    wf_ref valid_registry r -> r_reference r <> [] ->
+  forall (avail valid_registry : str -> bool) plain r,
+    wf_ref avail valid_registry r -> r_reference r <> [] ->
     url_clean (r_repository r) /\ seg_clean (r_reference r) /\
     after_last c_slash (url_manifest plain r) = r_reference r /\
     after_last c_slash (url_blob plain r) = r_reference r /\
     after_last c_slash (url_referrers plain r) = r_reference r.
 Proof. exact url_slot. Qed.
 Print Assumptions C20_url_slot.
+
+(* URL slot at full strength.  [url_is u plain r seg] (Proofs/RefURL.v) says, under the generic URL
+   syntax of RFC 3986 (Model url_split: authority ends at the first '/', '?', '#'; path at the first
+   '?', '#'): u splits into scheme, authority = exactly the registry's host (no '@', so no
+   user-info; non-empty), path = /v2/<repository>/<seg>/<reference> whose '/'-segments are exactly
+   "", "v2", the repository's components, seg, the reference -- and NO query and NO fragment.
+   The single fact about net/url used: an accepted registry is non-empty and contains none of
+   controls/space # % / ? @ \ DEL ([reg_clean]); the harness checks it on every reference the
+   implementation accepts (oracle signature registry-charset). *)
+Theorem C20_url_exact :
+  forall (avail valid_registry : str -> bool) plain r,
+    (forall reg, valid_registry reg = true -> reg_clean reg = true) ->
+    wf_ref avail valid_registry r -> r_reference r <> [] ->
+    url_is (url_manifest plain r) plain r (b "manifests") /\
+    url_is (url_blob plain r) plain r (b "blobs") /\
+    url_is (url_referrers plain r) plain r (b "referrers").
+Proof. exact url_exact. Qed.
+Print Assumptions C20_url_exact.
+
+Theorem C20_url_exact_noref :
+  forall (avail valid_registry : str -> bool) plain r,
+    (forall reg, valid_registry reg = true -> reg_clean reg = true) -> wf_ref avail valid_registry r ->
+    url_split (url_taglist plain r)
+    = Some (mkParts (scheme plain) (host_of (r_registry r)) (b "/v2/" ++ r_repository r ++ b "/tags/list") None None) /\
+    url_split (url_upload plain r)
+    = Some (mkParts (scheme plain) (host_of (r_registry r)) (b "/v2/" ++ r_repository r ++ b "/blobs/uploads/") None None).
+Proof. exact url_exact_noref. Qed.
+Print Assumptions C20_url_exact_noref.
+
+(* the registry hypothesis is needed: with an unconstrained registry predicate the whole path of
+   a "well-formed" reference lands in the query/fragment (this is why C20_url_slot alone, which
+   holds for any registry predicate, does not give the slot) *)
+Theorem C20_url_exact_unconstrained_registry_refuted :
+  exists (avail valid_registry : str -> bool) r,
+    wf_ref avail valid_registry r /\ r_reference r <> [] /\
+    url_split (url_manifest false r)
+    = Some (mkParts (b "https") (b "h") [] (Some (b "x")) (Some (b "y/v2/a/manifests/t"))).
+Proof. exact url_exact_unconstrained_registry_refuted. Qed.
+Print Assumptions C20_url_exact_unconstrained_registry_refuted.
+
+Example C20_url_exact_nonvacuous :
+  (forall reg, reg_clean reg = true -> reg_clean reg = true) /\
+  reg_clean (b "localhost:5000") = true /\ reg_clean (b "[::1]:5000") = true /\ reg_clean (b "h?x") = false /\
+  url_split (url_manifest true (mkRef (b "localhost:5000") (b "hello/world") (b "v1")))
+  = Some (mkParts (b "http") (b "localhost:5000") (b "/v2/hello/world/manifests/v1") None None) /\
+  split_on c_slash (b "/v2/hello/world/manifests/v1") = [[]; b "v2"; b "hello"; b "world"; b "manifests"; b "v1"].
+Proof. repeat split; auto; vm_compute; reflexivity. Qed.
+
+(* every request of every reference-taking operation: exact path in the base repository, no
+   query / fragment / user-info (x is the resolved reference or the digest of the descriptor
+   being tagged) *)
+Theorem C20_op_requests_exact_paths :
+  forall (avail valid_registry : str -> bool) op plain breg brepo s d reqs,
+    (forall reg, valid_registry reg = true -> reg_clean reg = true) ->
+    ok_registry valid_registry breg -> valid_repository brepo = true -> valid_digest avail d = true ->
+    op_requests avail valid_registry op plain breg brepo s d = Some reqs ->
+    exists r, repo_parse avail valid_registry breg brepo s = Some r /\
+      Forall (fun mu => exists seg x,
+                (seg = b "manifests" \/ seg = b "blobs") /\ (x = r_reference r \/ x = d) /\
+                url_is (snd mu) plain (mkRef breg brepo x) seg) reqs.
+Proof. exact op_requests_exact_paths. Qed.
+Print Assumptions C20_op_requests_exact_paths.
 
 (* every reference-taking Repository operation (Resolve, FetchReference, Tag, PushReference on
    manifests; Resolve, FetchReference on blobs) that accepts a reference string builds its
@@ -86,10 +196,10 @@ Print Assumptions C20_url_slot.
    stripped from a fully-qualified form), and no request targets anything but the manifest/blob
    URL of the resolved reference or the manifest URL of the descriptor being tagged *)
 Theorem C20_op_requests_use_resolved :
-  forall (valid_registry : str -> bool) op plain breg brepo s d reqs,
+  forall (avail valid_registry : str -> bool) op plain breg brepo s d reqs,
     ok_registry valid_registry breg -> valid_repository brepo = true ->
-    op_requests valid_registry op plain breg brepo s d = Some reqs ->
-    exists r, repo_parse valid_registry breg brepo s = Some r /\
+    op_requests avail valid_registry op plain breg brepo s d = Some reqs ->
+    exists r, repo_parse avail valid_registry breg brepo s = Some r /\
       r_registry r = breg /\ r_repository r = brepo /\
       In (ref_request op plain r) reqs /\
       Forall (fun mu => snd mu = url_manifest plain r \/ snd mu = url_blob plain r \/
@@ -100,22 +210,25 @@ Print Assumptions C20_op_requests_use_resolved.
 
 (* ... and the equivalent forms of one reference send identical requests *)
 Theorem C20_op_requests_forms_agree :
-  forall (valid_registry : str -> bool) op plain breg brepo d0,
+  forall (avail valid_registry : str -> bool) op plain breg brepo d0,
     ok_registry valid_registry breg -> valid_repository brepo = true ->
     (forall t, valid_tag t = true ->
-       op_requests valid_registry op plain breg brepo (breg ++ [c_slash] ++ brepo ++ [c_colon] ++ t) d0
-       = op_requests valid_registry op plain breg brepo t d0) /\
-    (forall d, valid_digest d = true ->
-       op_requests valid_registry op plain breg brepo (breg ++ [c_slash] ++ brepo ++ [c_at] ++ d) d0
-       = op_requests valid_registry op plain breg brepo d d0 /\
-       forall junk, contains c_slash junk = false -> contains c_at junk = false ->
-         op_requests valid_registry op plain breg brepo (junk ++ [c_at] ++ d) d0
-         = op_requests valid_registry op plain breg brepo d d0).
+       op_requests avail valid_registry op plain breg brepo (breg ++ [c_slash] ++ brepo ++ [c_colon] ++ t) d0
+       = op_requests avail valid_registry op plain breg brepo t d0) /\
+    (forall d, valid_digest avail d = true ->
+       op_requests avail valid_registry op plain breg brepo (breg ++ [c_slash] ++ brepo ++ [c_at] ++ d) d0
+       = op_requests avail valid_registry op plain breg brepo d d0 /\
+       (forall junk, contains c_slash junk = false -> contains c_at junk = false ->
+         op_requests avail valid_registry op plain breg brepo (junk ++ [c_at] ++ d) d0
+         = op_requests avail valid_registry op plain breg brepo d d0) /\
+       (forall junk, contains c_at junk = false ->
+         op_requests avail valid_registry op plain breg brepo (breg ++ [c_slash] ++ brepo ++ [c_colon] ++ junk ++ [c_at] ++ d) d0
+         = op_requests avail valid_registry op plain breg brepo d d0)).
 Proof. exact op_requests_forms_agree. Qed.
 Print Assumptions C20_op_requests_forms_agree.
 
 Example C20_op_nonvacuous :
-  op_requests (fun _ => true) OpTag false (b "localhost:5000") (b "hello/world") (b "v1@sha256:e3b0c44298fc1c149afbf4c8996fb92427ae41e4649b934ca495991b7852b855")
+  op_requests (fun _ => true) (fun _ => true) OpTag false (b "localhost:5000") (b "hello/world") (b "v1@sha256:e3b0c44298fc1c149afbf4c8996fb92427ae41e4649b934ca495991b7852b855")
               (b "sha256:e3b0c44298fc1c149afbf4c8996fb92427ae41e4649b934ca495991b7852b855")
   = Some [(b "GET", b "https://localhost:5000/v2/hello/world/manifests/sha256:e3b0c44298fc1c149afbf4c8996fb92427ae41e4649b934ca495991b7852b855");
           (b "PUT", b "https://localhost:5000/v2/hello/world/manifests/sha256:e3b0c44298fc1c149afbf4c8996fb92427ae41e4649b934ca495991b7852b855")].
@@ -123,6 +236,6 @@ Proof. vm_compute. reflexivity. Qed.
 
 (* non-vacuity: a concrete reference meets the hypotheses *)
 Example C20_nonvacuous :
-  parse (fun _ => true) (b "localhost:5000/hello/world:v1.0")
+  parse (fun _ => true) (fun _ => true) (b "localhost:5000/hello/world:v1.0")
   = Some (mkRef (b "localhost:5000") (b "hello/world") (b "v1.0")).
 Proof. vm_compute. reflexivity. Qed.
